@@ -339,6 +339,7 @@ func (s *UtxoStore) removeUnminedGameHistory(tx mwdb.DBTransaction, rec *TxRecor
 			}
 			history.walletId = ma.Account()
 			history.isBinding = ps.IsBinding()
+			history.vout = uint32(i)
 			err = deleteUnminedGameHistory(nsUnminedGameHistory, history)
 			if err != nil {
 				return err
